@@ -183,6 +183,22 @@ def run_phase(root: str, phase: dict, trace=None, rng_seed: str = "") -> dict:  
         sim.run()
     except fs_sim.StepCap as exc:
         step_cap = str(exc)
+    # hit / miss / recompute-after-read paths, from the seam log
+    open_calls: dict[int, dict] = {}
+    for idx, kind, detail, _fault in sim.events:
+        if kind == "call-begin":
+            open_calls[idx] = {"name": detail, "read": False, "write": False}
+        elif kind in ("read", "write") and idx in open_calls:
+            open_calls[idx][kind] = True
+        elif kind == "call-end" and idx in open_calls:
+            c = open_calls.pop(idx)
+            if c["name"].startswith("legacy:"):
+                continue
+            path = ("recompute_after_read" if c["write"] else "hit") if c["read"] else (
+                "miss" if c["write"] else "no_io")
+            sim.probe(f"path_{path}")
+            if path == "hit":
+                sim.probe("hit:" + c["name"])
     listing = []
     for dirpath, _dirnames, filenames in os.walk(root):
         for fn in sorted(filenames):
